@@ -1472,7 +1472,9 @@ private:
                  << "Next analysis with entry=" << callee_entry << "\n");
 	assert(!callee_analysis);
       } else {
-	if (m_ctx.find_call_stack(callee_cg_node)) {
+	if (m_ctx.find_call_stack(callee_cg_node) ||
+	    (m_ctx.get_is_checking_phase() &&
+	     m_ctx.get_recursive_set().count(callee_cg_node) > 0)) {
 	  // ### Imprecise analysis of recursive call ###
 	  // 4.b Replace recursive call with top.
 	  //
@@ -1483,6 +1485,13 @@ private:
 	  // 
 	  // When the checker runs on bar we won't have a summary for
 	  // foo since its analysis is not completed yet.
+	  //
+	  // The same happens if the recursive functions are analyzed
+	  // precisely: no summary is stored for a function of a call
+	  // graph cycle that is analyzed while the fixpoint of the
+	  // cycle's head is running, so when the checker runs (after
+	  // the fixpoint) on a block with a call to that function
+	  // there is nothing to reuse.
 	  callee_exit.set_to_top();
           crab::CrabStats::count("Interprocedural.num_recursive_callsites");
 	  CRAB_VERBOSE_IF(1, get_msg_stream()
